@@ -186,7 +186,7 @@ HARNESSES = [
     Harness("H06a-1", h06a, quick=dict(r=1, v=2, s=1, suspension=True), thorough=dict(r=1, v=3, s=1, suspension=True, statuses=(OrderStatus.EXECUTABLE, OrderStatus.CANCELLING, OrderStatus.UPDATING, OrderStatus.REPLACING)), pattern="P2 inductive step",
             max_paths=(60000, 2000000), requires=["lone", "fill", "unchanged-ladder", "suspended-update", "third-update"],
             outside=["order and traded prices outside {1.5, 2.0, 2.5, 3.0}"]),
-    Harness("H06a", h06a, quick=dict(r=2, v=2, s=2), thorough=dict(r=3, v=2, s=2), pattern="P2 inductive step", requires=["lone", "group", "priority", "fill", "unchanged-ladder"],
+    Harness("H06a", h06a, quick=dict(r=2, v=2, s=2), thorough=dict(r=3, v=1, s=2), pattern="P2 inductive step", requires=["lone", "group", "priority", "fill", "unchanged-ladder"],
             wall_s=(300, 3000), max_paths=(300000, 5000000),
             outside=["simulation_available_prices=True (documented double-counting mode, excluded by the property)", "more than r resting orders / v traded price levels per update",
                      "order and traded prices outside {1.5, 2.0, 2.5, 3.0} (sizes, queue sizes and volumes: every 2dp value, symbolic)"]),
